@@ -53,6 +53,14 @@ CHECKS = {
    technique="TLA+ contract spec (ReadDeadline.tla) + TLC MC + transition-tour, directed and random histories replayed through 4 connection types in virtual time (and the vnet socket in real time); traces validated by TLC",
    text="One contract spec (timeout only if a non-zero deadline has passed; expiry sticky until reset, also with data queued; a read cannot stay blocked with data queued or once its deadline passed) is checked by TLC for implementability; every transition of its state graph plus directed histories (expiry while nobody reads then extended, two reads after expiry, re-arm after expiry) and seeded random histories run on packetio.Buffer, dpipe, Bridge endpoints and vnet UDP sockets in exact virtual time, and on the vnet socket in real time under the module's own timer semantics; call/return instants and results are validated by TLC.",
    note="udp listener connections read through packetio.Buffer and are exercised by the C11/C12 harness; real-time run uses 150 ms margins on both sides of every deadline"),
+ "C11": dict(engine="vrt-sched", design_ref="DESIGN.md §4 C11",
+   technique="TLA+ spec with call/linearize/return and read-loop dispatch (UDPListener.tla) + TLC MC (OneConnPerRemote, Isolation) ; real listener over an in-memory socket under the gate scheduler + sequential histories over real loopback sockets with and without batch reads; traces validated by TLC (Judge=demux)",
+   text="TLC checks one-connection-per-remote, isolation and backlog bounds on the spec for all interleavings of 3 datagrams and 4 client operations. The real listener (net.ListenUDP redirected to an in-memory socket, yields at every lock/channel/select/WaitGroup operation) runs concurrent scenario families under enumerated and random schedules plus seeded sequential histories (4 remotes, accept filter, backlog 2, close and re-open); the same histories run over real loopback sockets with batch reads on and off; every send, call, return and quiescence point is validated by TLC: each datagram only to the connection of its remote, in order, first datagram readable, refused/overflowing datagrams create nothing, fresh connection after close.",
+   note="datagram payloads are self-describing (id, remote, filler) and checked by the harness; loopback treated as loss-free for a few small datagrams; schedule space sampled within budget"),
+ "C12": dict(engine="vrt-sched", design_ref="DESIGN.md §4 C12",
+   technique="same spec and traces as C11, judged for lifecycle (Judge=life): socket open iff listener or an accepted connection is open, Accept after Close fails, accepted connections keep working, no package goroutine left",
+   text="Scenario families race Accept, listener Close, connection Close, reads, writes and arrivals (0..2 accepted, 0..3 unaccepted connections) under the gate scheduler; at exact quiescence the in-memory port must be bound exactly when the spec says the socket is referenced, read loop and closer goroutine must be gone once it is not, every unreturned call must be legitimately waiting, writes on open accepted connections must succeed; the real-socket run checks that the OS port can be re-bound.",
+   note="as C11"),
 }
 
 def main():
